@@ -11,7 +11,7 @@ RULE = ("Hypothesis-generated (scenario, schedule) cases run under the controlle
         "outstanding demand, strictly increasing, in [0, until), and every demand executed at the end; debug runs "
         "also compare the labels with world.execution_graph. non-trivial = the run has a trigger-caused step and "
         "a non-FIFO release, or a demand inserted below an outstanding one; distinct = distinct case hashes"
-        "; in addition four long runs (until 80 / 120 / 1100) under FIFO, LIFO and a starved simulator, and the "
+        "; in addition six long runs (until 80 / 120 / 1100, strides of hundreds, 24 simulators) under FIFO, LIFO and a starved simulator, and the "
         "extreme policies (LIFO, steps first, get_data first, each simulator starved) before every schedule enumeration")
 ASSUMPTIONS = [
     "scripted compliant simulators; 'demanded' as derived by the monitor from observed replies (DESIGN 2.3)",
